@@ -278,6 +278,14 @@ class MessageManager(interfaces.TokenInterface, interfaces.MessageManager):
         messageerror_monitor, next_retransmission = self._active_exchanges.pop(key)
         next_retransmission.cancel()
         if message.mtype is RST:
+            # Whatever the rejected message's sender still has waiting for this
+            # remote (eg. further notifications of the observation that is
+            # being cancelled right now) must not be sent either
+            self._backlogs[message.remote] = [
+                (m, monitor)
+                for (m, monitor) in self._backlogs.get(message.remote, [])
+                if monitor is not messageerror_monitor
+            ]
             messageerror_monitor()
         self.log.debug("Exchange removed, message ID: %d.", message.mid)
 
@@ -368,6 +376,17 @@ class MessageManager(interfaces.TokenInterface, interfaces.MessageManager):
     def _process_request(self, request):
         """Spawn a responder for an incoming request, or feed a long-running
         responder if one exists."""
+
+        if request.remote in self._backlogs:
+            # A new request on a token voids whatever responses to the earlier
+            # request on that token are still waiting for their turn (eg.
+            # notifications of an observation that this request replaces or
+            # cancels)
+            self._backlogs[request.remote] = [
+                (m, monitor)
+                for (m, monitor) in self._backlogs[request.remote]
+                if not (m.code.is_response() and m.token == request.token)
+            ]
 
         if request.mtype == CON:
 
